@@ -454,3 +454,67 @@ def schwab_family(tier):
 
 def awards_family(tier):
     return _conv_family('MC_Awards', tier, 'awards files')
+
+
+# --------------------------------------------------------------------------------------------
+# P2: traces of the real matcher (verif hooks) validated by TLC against Cgt.tla (CgtTrace.tla)
+
+def _trace_run(name, ledgers, seed, corrupt='none'):
+    wd = workdir('cgttrace')
+    tpath = os.path.join(wd, f'trace_{name}.ndjson')
+    s = harness('record_cgt', ['--out', tpath, '--ledgers', str(ledgers), '--seed', str(seed), '--corrupt', corrupt])
+    m = tlc('CgtTrace', os.path.join('cfg', 'CgtTrace.cfg'), workers=1, timeout=2400, env={'TRACE': tpath}, cache=False,
+            jvm=['-Xss1g', '-Dtlc2.tool.queue.IStateQueue=StateDeque'], allow_fail=True)
+    txt = open(m['out'], errors='replace').read()
+    accepted = 'No error has been found' in txt and 'REJECTED_AT' not in txt
+    why = None
+    if not accepted:
+        for marker in ('REJECTED_AT', 'is violated', 'Error:'):
+            hit = [l for l in txt.splitlines() if marker in l]
+            if hit:
+                i = txt.find(hit[0])
+                why = txt[i:i + 700]
+                break
+    return s, m, accepted, why, tpath
+
+
+def trace_family(tier, seed):
+    key = f'cgttrace_{tier}_{seed}'
+    if key in _family_cache:
+        return _family_cache[key]
+    ledgers = 60 if tier == 'quick' else 600
+    s, m, accepted, why, tpath = _trace_run('main', ledgers, seed)
+    log(f'[trace] CgtTrace: {s["counters"].get("projected_traces", 0)} per-security traces of {s["counters"].get("ledgers", 0)} ledgers, '
+        f'{s["counters"].get("events", 0)} events, {m["states"]} states: {"accepted" if accepted else "REJECTED"} ({m["wall_s"]}s)')
+    findings = []
+    for p in s.get('panics', []):
+        findings.append({'prop': 'C15', 'kind': 'panic', 'case': 0, 'detail': 'calculate panicked: ' + p[:200], 'input': p, 'data': {}})
+    if not accepted:
+        inv = why or ''
+        prop = 'C01'
+        for name, pr in (('TClaimsWithinBought', 'C02'), ('TLegsSumToSold', 'C02'), ('TPoolNonNeg', 'C02'), ('TCostConservedAtEnd', 'C03'),
+                         ('TFailIffUncovered', 'C05'), ('THoldIsClosedForm', 'C05'), ('TNoNegativeCost', 'C11')):
+            if name in inv:
+                prop = pr
+        # an event that the specification cannot take: attribute by the kind of event
+        if 'REJECTED_AT' in inv:
+            if '"Sell"' in inv or '"Fail"' in inv or '"Abort"' in inv:
+                prop = 'C05'
+            elif '"DayEnd"' in inv:
+                prop = 'C02'
+            elif '"Start"' in inv:
+                prop = 'C11'
+        for pr in sorted({prop, 'C01'}):
+            findings.append({'prop': pr, 'kind': 'trace_rejected', 'case': 0, 'input': tpath, 'data': {'tlc': inv},
+                             'detail': 'a recorded execution of the real matcher is not a behaviour of Cgt.tla: ' + ' '.join(inv.split())[:500]})
+    # binding self-tests (thorough tier and first quick run): corrupt one field / drop one event -> must be rejected
+    selftests = {}
+    for c in (('leg', 'drop', 'pool') if tier == 'thorough' else ('leg',)):
+        _, _, acc2, _, _ = _trace_run('selftest_' + c, 12, seed, corrupt=c)
+        selftests[c] = not acc2
+        if acc2:
+            raise common.ToolError(f'CgtTrace does not bind: a trace corrupted by "{c}" was accepted')
+    s['counters']['executions'] = s['counters'].get('ledgers', 0)
+    r = {'name': key, 'tlc': m, 'summary': s, 'findings': findings, 'obs': None, 'selftests': selftests}
+    _family_cache[key] = r
+    return r
